@@ -162,6 +162,9 @@ func eval(e *rsx.Env, a *aux, rq rsx.Req) (bool, bool, string, string) {
 	if o.Panic != "" {
 		return false, true, "panic", "panic: " + o.Panic
 	}
+	if o.Cap.Reentry != "" {
+		return false, true, "context-changed-by-reentry", fmt.Sprintf("%s: set %s request %s (handler %d)", o.Cap.Reentry, rsx.SetString(e.Set), rq, o.Cap.Handler)
+	}
 	nontrivial := (want.Route != nil && !want.Tsr && len(want.Params) >= 2) || e.Contenders(rq.Method, rq.Host, rq.MatchPath()) >= 2
 	hdr := func() string {
 		w := "no route"
